@@ -7,3 +7,4 @@ mod stubs;
 mod header;
 #[cfg(kani)]
 mod hexaddr;
+// distance_glue.rs (C11 ii) is kept for reference but not compiled: 3 digits did not finish in 15 min
